@@ -606,7 +606,68 @@ def r01_6(ctx):
                'change, and both callbacks can fire for one job' % late[0].text())
 
 
+
+def r01_13(ctx):
+    ctx.rule('R01.13', 'an outcome is filed under the position its message names: no handle re-binds the position '
+                       'parameter of _set (a pool-made failure without position must not be pinned on whichever part '
+                       'happens to be next)', floor=3)
+    m = ctx.model
+    for cq in ('pool:ApplyResult', 'pool:MapResult', 'pool:IMapIterator', 'pool:IMapUnorderedIterator'):
+        ci = m.cls(cq)
+        fi = ci.methods.get('_set')
+        if fi is None:
+            continue
+        P = fi.positional_params()[1]
+        defs = [(dn, v) for (dn, t, v) in q.assigns(fi, P)]
+        ctx.ob('R01.13', '%s._set:position-as-given' % ci.name, not defs, fi, defs[0][0] if defs else None,
+               '`%s` is never assigned' % P if not defs else
+               '`%s = %s`: the outcome is filed under a position the sender did not name -- the real result of that '
+               'part is dropped later as a duplicate' % (P, ast.unparse(defs[0][1])[:40] if defs[0][1] is not None else '...'))
+
+
+def r01_14(ctx):
+    ctx.rule('R01.14', 'a failure of the task sequence itself (the iterable raised) is filed past the last part that '
+                       'was sent, never on a part a worker is still running', floor=1)
+    m = ctx.model
+    fi = m.func('pool:TaskHandler.body')
+    sets = []
+    for t in [n for n in walk_own(fi.node) if isinstance(n, ast.Try)]:
+        for h in t.handlers:
+            # the outer handler: the one whose try contains the loop over the task sequence
+            if not any(isinstance(x, ast.For) for st in t.body for x in ast.walk(st)):
+                continue
+            for c in [x for st in h.body for x in ast.walk(st) if isinstance(x, ast.Call)]:
+                if isinstance(c.func, ast.Attribute) and c.func.attr == '_set' and c.args:
+                    sets.append(c)
+    q.need(sets, 'TaskHandler.body: failure of the task sequence is not reported')
+    # the part index of the last task read: second name of the `job, ind = task[1][:2] ...` unpack of that handler
+    last = None
+    for t in [n for n in walk_own(fi.node) if isinstance(n, ast.Try)]:
+        for h in t.handlers:
+            if any(c_ in [x for st in h.body for x in ast.walk(st)] for c_ in sets):
+                for st in h.body:
+                    if isinstance(st, ast.Assign) and isinstance(st.targets[0], ast.Tuple) and len(st.targets[0].elts) == 2 \
+                            and all(isinstance(e, ast.Name) for e in st.targets[0].elts):
+                        last = st.targets[0].elts[1].id
+    q.need(last, 'TaskHandler.body: the handler does not read the last task\'s part index')
+    for c in sets:
+        pos = ast.unparse(c.args[0]).replace(' ', '')
+        ok = pos in ('%s+1' % last, '1+%s' % last)
+        ctx.ob('R01.14', 'TaskHandler.body:sequence-failure-past-the-last-sent-part', ok, fi, c,
+               'cache[job]._set(<last part> + 1, failure)' if ok else
+               '_set(%s, failure): `%s` is the part that was sent last and is running; its real result will be dropped' % (pos, last))
+
+
 def run(ctx):
+    r01_13(ctx)
+    r01_14(ctx)
+    # the owner lists of a map job are per item (borrowed from C04), and close() stops only the supervisor (from C07):
+    # an owner that is forgotten, or queued jobs the feeder drops, are jobs without an outcome
+    from ..report import Only as _Only
+    from .c04 import r04_9 as _r04_9
+    _r04_9(_Only(ctx, ('indexed-by-item',), floor=2, doc='MapResult keeps its per-item owner / time lists indexed by item'))
+    from .c07 import r07_10 as _r07_10
+    _r07_10(_Only(ctx, ('Pool.close:',), floor=1, doc='close() flags the supervisor only: the feeder and the result handler run on until their sentinels'))
     # a job past its hard limit is failed by the scanner: every job of a pass is tested (borrowed from C05 / timelimits)
     from .timelimits import r05_6 as _r05_6
     from ..report import Only as _Only
@@ -650,6 +711,8 @@ def run(ctx):
 
 _P = 'billiard/pool.py'
 MUTANTS = [
+    ('imap-pins-positionless-failure-on-the-next-part', _P, "    def _set(self, i, obj):\n        with self._cond:\n            if self._index == i:", "    def _set(self, i, obj):\n        with self._cond:\n            if i is None:\n                i = self._index\n            if self._index == i:", 'R01.13'),
+    ('sequence-failure-filed-on-the-last-sent-part', _P, "                    cache[job]._set(ind + 1, (False, ExceptionInfo()))\n", "                    cache[job]._set(ind, (False, ExceptionInfo()))\n", 'R01.14'),
     ('map-handle-drops-the-error-callback', _P, "            self, cache, callback, error_callback=error_callback,\n", "            self, cache, callback,\n", 'R01.10'),
     ('outcome-list-shared-by-all-map-handles', _P, "class MapResult(ApplyResult):\n\n    def __init__(self, cache, chunksize, length, callback, error_callback):\n        ApplyResult.__init__(\n            self, cache, callback, error_callback=error_callback,\n        )\n        self._success = True\n        self._length = length\n        self._value = [None] * length\n",
      "class MapResult(ApplyResult):\n    _value = []\n\n    def __init__(self, cache, chunksize, length, callback, error_callback):\n        ApplyResult.__init__(\n            self, cache, callback, error_callback=error_callback,\n        )\n        self._success = True\n        self._length = length\n        self._value.extend([None] * length)\n", 'R01.9'),
